@@ -476,14 +476,18 @@ theorem Inv.fresh (fs : List Force) (v : Vars) : Inv fs (fresh fs v) := by
     simp only [C16.fresh, List.getD_eq_getElem?_getD, List.getElem?_map, List.getElem?_range hi, Option.map_some,
       Option.getD_some]
     simp only [List.getD_eq_getElem?_getD] at hz
-    rw [if_pos hz]
+    have hz' : v.zeroMag[i]?.getD false = true := hz
+    rw [if_pos hz']
   · intro hv; cases hv
-  · intro h7; simp only [C16.fresh] at h7; omega
+  · intro h7
+    have : (7 : Nat) ≤ 2 := h7
+    omega
 
-theorem Inv.run {fs : List Force} (hw : WF fs) (ops : List Op) {st : St} (h : Inv fs st) : Inv fs (run fs st ops) := by
+theorem Inv.run {fs : List Force} (hw : WF fs) (ops : List Op) {st : St} (h : Inv fs st) :
+    Inv fs (C16.run fs st ops) := by
   induction ops generalizing st with
   | nil => exact h
-  | cons op ops ih => simp only [run, List.foldl_cons]; exact ih (h.step hw op)
+  | cons op ops ih => simp only [C16.run, List.foldl_cons]; exact ih (h.step hw op)
 
 theorem fresh_vars (fs : List Force) (v : Vars) : (fresh fs v).vars = v := rfl
 
